@@ -338,7 +338,9 @@ func c07Packet(lay decoder, in []byte) (lt gopacket.LayerType, pkt gopacket.Pack
 	if lt == gopacket.LayerTypeZero || lt == gopacket.LayerTypePayload {
 		return lt, nil
 	}
-	if p := guard(func() { pkt = gopacket.NewPacket(append([]byte{}, in...), lt, gopacket.DecodeOptions{Lazy: false, NoCopy: true}) }); p != "" {
+	if p := guard(func() {
+		pkt = gopacket.NewPacket(append([]byte{}, in...), lt, gopacket.DecodeOptions{Lazy: false, NoCopy: true})
+	}); p != "" {
 		return lt, nil
 	}
 	if el := pkt.ErrorLayer(); el != nil && strings.Contains(el.Error().Error(), "no decoder") {
